@@ -258,6 +258,9 @@ def schema():
     return SCH['S']
 
 
+_LV_PATH = set()
+
+
 def lv_lib(v):
     """logical value of a library object (caller-held or returned by the parser)"""
     from pytoniq_core.boc import Cell, Slice, Builder
@@ -275,7 +278,14 @@ def lv_lib(v):
     if isinstance(v, Builder):
         return ('builder', v.bits.to01(), tuple(r.hash.hex() for r in v.refs))
     if isinstance(v, VmTuple):
-        return ('tuple', tuple(lv_lib(x) for x in v.list))
+        # a value returned by the code under test may be malformed in any way - also cyclic (a tuple that contains itself)
+        if id(v) in _LV_PATH:
+            return ('CYCLIC-TUPLE',)
+        _LV_PATH.add(id(v))
+        try:
+            return ('tuple', tuple(lv_lib(x) for x in v.list))
+        finally:
+            _LV_PATH.discard(id(v))
     if isinstance(v, VmCont):
         t = v.type_[4:]
         g = lambda n: getattr(v, n, 'ABSENT')          # noqa
@@ -697,7 +707,15 @@ def build_pool():
     from pytoniq_core.tlb.vm_stack import VmTuple
     pool = [to_lib(s) for s in POOL0]
     pool[0].list[1] = pool[1]
+    # stacks the caller received from elsewhere (written by the reference encoder): parsing them gives the caller values
+    # it then owns - and edits -, and parsing the same cell again must give the same values again
+    for specs in FOREIGN0:
+        b, r = enc_stack(specs, False)
+        pool.append(('RES', 'stack', cell_to_lib(RC.RCell(b, r), {})))
     return pool
+
+
+FOREIGN0 = [[['tuple', []], ['tuple', [I(7)]], I(5)], [['tuple', [['tuple', []], I(1)]], ['tuple', [I(1), I(2)]], ['tuple', []]]]
 
 
 def h_enabled(pool):
